@@ -825,11 +825,13 @@ static inline int myth_cond_destroy_body(myth_cond_t * cond) {
 }
 
 static inline int myth_cond_broadcast_body(myth_cond_t * cond) {
+  myth_ensure_init();
   myth_wake_all_from_queue(cond->sleep_q, 0, 0);
   return 0;
 }
 
 static inline int myth_cond_signal_body(myth_cond_t * cond) {
+  myth_ensure_init();
   myth_wake_if_any_from_queue(cond->sleep_q, 0, 0);
   return 0;
 }
@@ -891,6 +893,7 @@ static inline int myth_barrier_destroy_body(myth_barrier_t * barrier) {
 }
 
 static inline int myth_barrier_wait_body(myth_barrier_t * barrier) {
+  myth_ensure_init();
   while (1) {
     long c = barrier->state;
     MYTH_VERIF_POINT(BAR_BEFORE_CAS);
